@@ -734,7 +734,10 @@ func fmtSprint(fr *frame, a []value) value {
 }
 
 func fmtErrorf(fr *frame, a []value) value {
-	msg := fmtSprintf(fr, a).(string)
+	msg, ok := fmtSprintf(fr, a).(string)
+	if !ok {
+		msg = symMarker // message built from symbolic strings: content not tracked
+	}
 	// keep %w wrapping: if an argument is an error, remember it for Unwrap
 	var wrapped value = iface{}
 	if f, ok := a[0].(string); ok && strings.Contains(f, "%w") {
